@@ -68,6 +68,7 @@ type ResolveCase struct {
 	// the store is changed behind the running service (a second existence pattern) and the same query is resolved again
 	Pattern2 int // -1: no second round
 	Mtime    int // file backend: the rewritten file's modification time is 0 = whatever the write gives, 1 = exactly the old one, 2 = older
+	Empty    int // bit i: candidate i, where it exists, has empty content (it exists all the same)
 }
 
 type kvset map[string]string // path below o2/components/ -> payload
@@ -93,6 +94,9 @@ func buildStore(c ResolveCase) kvset {
 		if c.Pattern&(1<<i) != 0 {
 			if _, dup := kv[p]; !dup {
 				kv[p] = "payload-of:" + p
+				if c.Empty&(1<<i) != 0 {
+					kv[p] = ""
+				}
 			}
 		}
 	}
@@ -348,6 +352,9 @@ func genResolve(t *rapid.T) ResolveCase {
 		Entry:     genEntry().Draw(t, "entry"),
 		Pattern:   rapid.IntRange(0, 15).Draw(t, "pattern"),
 		Pattern2:  -1,
+	}
+	if rapid.IntRange(0, 3).Draw(t, "someEmpty") == 0 {
+		c.Empty = rapid.IntRange(1, 15).Draw(t, "empty")
 	}
 	if rapid.Bool().Draw(t, "secondRound") {
 		c.Pattern2 = rapid.IntRange(0, 15).Draw(t, "pattern2")
